@@ -1,0 +1,14 @@
+//go:build verif
+
+package it
+
+// Contracts for the goblvc verifier (see /verif/DESIGN.md). Comments only.
+//
+// C13 (Italy, Partita IVA): eleven digits, the eleventh being the Luhn check digit of the
+// first ten.
+//@ func validateTaxCode(value) (err)
+//@   bytes
+//@   let code = unboxed(value, cbc.Code)
+//@   ensures [iff] typeis(value, cbc.Code) && code != "" ==> (err == nil <==> len(code) == 11 && digitsIn(code, 0, 11) && s_byte(code, 10) - 48 == common.luhnCheck(s_substr(code, 0, 10), 10))
+//@   ensures [skip] !typeis(value, cbc.Code) || code == "" ==> err == nil
+//@   loop 1 invariant digitsIn(str, 0, $pos)
